@@ -5,13 +5,13 @@ from vf import l1
 PROPERTY = 'C04'
 LEVEL = 'model_checking'
 BOUNDS = {'quick': dict(prime='+ - * with m=3 (t=1, PRSS on/off) over GF(7), GF(101), GF(2^61-1); / and ** (exponents -2..5) at m=1 over GF(7), GF(13) '
-                              '(division by cross-multiplication); == / is_zero (Fermat power) over GF(p), p<=13; ',
+                              '(division by cross-multiplication); / with m=3, t=1 over GF(5) without PRSS (masked reciprocal with dealer randomness, one retry); == / is_zero (Fermat power) over GF(p), p<=13; ',
                         binary='GF(2^k), k<=3 at m=1: + * & | ^ ~ to_bits from_bits', lifted='SecFld(2), SecFld(3) with m=3,t=1 (GF(4), GF(9)): + - and public multiples, outputs in the base field; '
                         'secret*secret in the thorough tier'),
           'thorough': dict(prime='as quick plus GF(2^127-1), == over p<=23', binary='k<=4', lifted='as quick plus secret*secret products (resharing in the extension field)')}
 OUTSIDE = ['odd-characteristic extension fields of degree > 2', '== and ** with secret base over primes > 23 (the Fermat power a^(q-1) is not decided by the solver there)',
            'bit decomposition of prime-field elements: it is the composition convert -> secure-integer to_bits -> convert, whose parts are the subjects of C06, C01 (mod) and C30; the composed run exceeds the path budget',
-           'secure field arrays (C37)', 'secret exponents', 'division with m>1 parties (the masked reciprocal is explored at m=1; resharing / thresholds of its opening only there)', '/ and negative powers over primes > 13 (the retry test "a*r != 0" of the masked reciprocal is a nonlinear feasibility query per path)']
+           'secure field arrays (C37)', 'secret exponents', 'division with m>1 parties beyond GF(5), m=3 (PRSS variant in the thorough tier)', '/ and negative powers over primes > 13 (the retry test "a*r != 0" of the masked reciprocal is a nonlinear feasibility query per path)']
 ASSUMPTIONS = ['the multiplicative mask in reciprocal() is non-zero on the explored path (the code retries otherwise: one retry explored, further retries cut)',
                'Z_p has no zero divisors (instantiated fact)']
 LEVEL_TEXT = ('Bounded symbolic model checking of the real SecureFiniteField operators: elements, dealer randomness, PRF outputs and masks are solver variables; '
@@ -303,7 +303,10 @@ def instances(tier):
         out.append(Inst(f'div[p={l1_pname(p)}]', h_div_pow, dict(p=p, what='div'), **T))
         for n in (0, 1, 2, 3, 5, -1, -2):
             out.append(Inst(f'pow[p={l1_pname(p)},n={n}]', h_div_pow, dict(p=p, what='pow', n=n), **T))
-    # h_l1_div (masked reciprocal with m=3 parties) is not registered: the exploration does not finish within the budget
+    # masked reciprocal with m=3 parties, dealer randomness, including one retry after a zero mask (GF(5): no lifting for three parties; ~3 min)
+    out.append(Inst('L1:div[p=5,m=3,t=1,prss=0]', h_l1_div, dict(m=3, t=1, p=5, prss=False), **T))
+    if not q:
+        out.append(Inst('L1:div[p=5,m=3,t=1,prss=1]', h_l1_div, dict(m=3, t=1, p=5, prss=True), **T))
     for p in ((3, 5, 7, 11, 13) if q else (3, 5, 7, 11, 13, 17, 19, 23)):
         out.append(Inst(f'eq[p={p}]', h_eq, dict(p=p), goal_timeout_ms=120000, **T))
     for kk in ((1, 2) if q else (1, 2, 3)):
